@@ -169,6 +169,9 @@ def generate(seed: int, tier: str, phase: str) -> Dict[str, Any]:
             ops.append({"op": "reset"})
         elif x < 0.22:
             ops.append({"op": "bad_call"})
+        elif x < 0.32 and kind == "module":
+            # a legal change of a hyper-parameter attribute on the (shared) module between calls
+            ops.append({"op": "set_attr", "i": r.randrange(16), "v": r.randrange(8)})
         elif x < 0.45:
             c = copy.deepcopy(base)  # same signature again: cache hit expected
             c["tseed"] = r.randrange(1 << 30)
@@ -635,6 +638,23 @@ def execute(plan: Dict[str, Any]) -> Dict[str, Any]:
                     fault("dynamo.reset", True)
                     outcomes.append("reset")
                     res["opseq"].append("reset")
+                    continue
+                if k == "set_attr":
+                    if built.module is None:
+                        continue
+                    cands = []
+                    for mn, sm in built.module.named_modules():
+                        for an in ("mult", "constraint", "is_causal"):
+                            if an in vars(sm):
+                                cands.append((sm, an, mn))
+                    if not cands:
+                        continue
+                    sm, an, mn = cands[op["i"] % len(cands)]
+                    new = {"mult": [0.5, 1.0, 2.0, 4.0], "is_causal": [True, False],
+                           "constraint": [None, "to_output_scale", "gmean", "to_grad_input_scale"]}[an]
+                    setattr(sm, an, new[op["v"] % len(new)])
+                    probe("module_attribute_changes")
+                    res["opseq"].append(f"set_attr:{an}")
                     continue
                 if k == "bad_call":
                     if last_good is None:
